@@ -19,6 +19,26 @@ Definition zmat_eqb := list_eqb vec_eqb.
 (* np.sort(tt_sub2ind(shape, subs)) up to order *)
 Definition znzidx (S : sparse Z) : list Z := map (fun j => Z.of_nat (sub2ind (sshape S) j)) (ssubs S).
 
+(* ---- the REPAIRED samplers (fixes/C13-*.diff): floor(u*d) instead of ceil(u*d)-1 and ceil(u*(d-1)); zero values and
+   weights sized by the zero subscripts actually obtained.  Generated cases accept either the faithful or the repaired
+   behaviour, so repairing pyttb never raises an alarm. ---- *)
+Definition draw_floor (a d : Z) : Z := (a * d) / D53.
+Lemma draw_floor_range a d : 0 <= a < D53 -> 0 < d -> 0 <= draw_floor a d < d.
+Proof.
+  intros Ha Hd. unfold draw_floor. pose proof D53_pos. split.
+  - apply Z.div_pos; nia.
+  - apply Z.div_lt_upper_bound; nia.
+Qed.
+Definition fx_row (s : shape) (row : list Z) : list Z := zip2 draw_floor row (zshape s).
+Definition fx_uniform_subs (s : shape) (draws : list (list Z)) := map (fx_row s) draws.
+Definition fx_uniform_vals (X : dense Z) (draws : list (list Z)) := map (read_dense 0 X) (fx_uniform_subs (dshape X) draws).
+Definition fx_zero_subs (s : shape) (nzidx : list Z) (draws : list (list Z)) (req : nat) :=
+  firstn req (filter (is_zero_row s nzidx) (map (fx_row s) draws)).
+Definition fx_strat_subs (S : sparse Z) nzidx nidx draws req := nz_subs S nidx ++ fx_zero_subs (sshape S) nzidx draws req.
+Definition fx_strat_vals (S : sparse Z) nzidx (nidx : list nat) draws req :=
+  nz_vals 0 S nidx ++ repeat 0 (length (fx_zero_subs (sshape S) nzidx draws req)).
+Definition fx_semi_subs (S : sparse Z) (nidx : list nat) (draws : list (list Z)) := nz_subs S nidx ++ map (fx_row (sshape S)) draws.
+
 (* ---- what C13 states about ONE observed sample (subscripts, values, number of weights) ---- *)
 Definition sample_ok_dense (X : dense Z) (subs : list (list Z)) (vals : list Z) (nw : nat) : bool :=
   Nat.eqb (length subs) (length vals) && Nat.eqb (length vals) nw &&
